@@ -110,7 +110,7 @@ func (s *SimStore) read(lc linking.LinkContext, l datamodel.Link) (io.Reader, er
 	o := "ok"
 	if s.GateReads {
 		outs := append([]string{"ok"}, s.ReadFaults...)
-		o = s.w.Park("load", "load|"+s.node+"|"+shortCid(c), outs...)
+		o = s.w.Park("load", "load|"+s.node+"|"+TagOf(lc.Ctx)+"|"+shortCid(c), outs...)
 	}
 	if s.PanicAtRead == n {
 		o = "panic"
@@ -157,7 +157,7 @@ func (s *SimStore) write(lc linking.LinkContext) (io.Writer, linking.BlockWriteC
 		o := "ok"
 		if s.GateCommits {
 			outs := append([]string{"ok"}, s.WriteFaults...)
-			o = s.w.Park("commit", "commit|"+s.node+"|"+shortCid(c), outs...)
+			o = s.w.Park("commit", "commit|"+s.node+"|"+TagOf(lc.Ctx)+"|"+shortCid(c), outs...)
 		}
 		if s.PanicAtCommit == n {
 			o = "panic"
